@@ -417,6 +417,11 @@ def worklist(ta, tb):
         if not (isinstance(r, ast.If) and U(r.test) == 'isinstance(mu, complex)'): raise Untranslatable('estimate dispatch')
         expect(r.body[0], 'u, r = standard_uncertainty(seq, mu)')
         expect(r.orelse[0], 'u = standard_uncertainty(seq, mu)')
+        # each branch is exactly: the statistics, then the one declaration (whose arguments the g_est_* definitions translate);
+        # anything else in a branch (a special case before the declaration, ...) is outside the modelled shape
+        for br, ctor in ((r.body, 'ucomplex'), (r.orelse, 'ureal')):
+            if len(br) != 2 or not (isinstance(br[1], ast.Return) and isinstance(br[1].value, ast.Call) and U(br[1].value.func) == ctor):
+                raise Untranslatable('estimate: a branch is not `u = ...; return %s(...)`' % ctor)
         return t
     add('g_est_df', '(n : Z)', 'res Z', th)
     def est_call(which):
